@@ -55,6 +55,7 @@ def make_cfg(seed, i):
         rad = (0.6 + r()) * (gapmin if np.isfinite(gapmin) else 2.0)
         cfg["proj"] = [dict(type="ball", c=z.tolist(), r=float(rad))]
         cfg["user_params"].pop("init.random_initial_directions", None)
+        cfg["user_params"].pop("init.run_in_parallel", None)
         cfg["user_params"].pop("init.random_directions_make_orthogonal", None)
         cfg["args"]["maxfun"] = min(cfg["args"]["maxfun"], 60)
     return cfg
